@@ -137,7 +137,7 @@ def run_config(chk, config):
     engw, wpaths = writer_paths(chk, fx, a, "Control")
     chk.require_anchor(len(wpaths) >= 1, "Message::write(Control) has a returning path")
     for s, wt in wpaths:
-        c = layout.canon_writer(engw, s, [t for t in wt if t["site"]["fn"].endswith("ControlMessage::write") or t["site"]["fn"].endswith("Flags::write")],
+        c = layout.canon_writer(engw, s, [t for t in wt if own_site(t["site"])],
                                 "self.*.Control.0")
         want = [("const", 2, flag_word(hs, True, True, True, False, False)), ("zero", 2), ("int", 2, "tunnel_id"), ("int", 2, "session_id"),
                 ("int", 2, "ns"), ("int", 2, "nr"), ("patch",)]
